@@ -37,7 +37,7 @@ OnlyDiffers(x, y, t) == /\ x.k = "obj" /\ y.k = "obj" /\ x.g = y.g
 LawsFalse(x, y) ==
   (IF IsNilLike(x) # IsNilLike(y) THEN {"NilNon"} ELSE {})
   \cup (IF x.k = "obj" /\ y.k = "obj" /\ IdS(x) # "" /\ IdS(y) # "" /\ IdS(x) # IdS(y) THEN {"IdDiff"} ELSE {})
-  \cup (IF x.k = "obj" /\ y.k = "obj" /\ TypeS(x) # TypeS(y) /\ TypeS(x) # "" /\ TypeS(y) # "" THEN {"TypeDiff"} ELSE {})
+  \cup (IF x.k = "obj" /\ y.k = "obj" /\ TypeS(x) # TypeS(y) THEN {"TypeDiff"} ELSE {})
   \cup (IF x.k = "obj" /\ y.k = "obj" /\ \E t \in MutTerms(x.g) \ {"id", "type"} : OnlyDiffers(x, y, t) THEN {"Mut"} ELSE {})
 LawsTrue(x, y) ==
   (IF x = y THEN {"Refl"} ELSE {}) \cup (IF IsNilLike(x) /\ IsNilLike(y) THEN {"NilNil"} ELSE {})
